@@ -232,6 +232,9 @@ pub trait TypedIterable {
                 .offset_edns
                 .map(|x| (x as isize + shift) as usize)
         }
+        if section == Section::Question {
+            parsed_packet.cached = None;
+        }
         if section == Section::NameServers
             || section == Section::Answer
             || section == Section::Question
